@@ -1447,6 +1447,7 @@ pub fn run(args: &Args) -> i32 {
     port_states(&rt, &mut ev);
     configuration(&rt, &mut ev);
     crate::c18srv::run(&rt, &trt, &mut ev);
+    crate::c18misc::run(&rt, log.as_deref(), &mut ev);
     ev.sample(json!({"client_scenario": "rodbus_client_channel_read_holding_registers(unit, range, timeout) against a scripted peer answering [genuine, exception 0x01..0xFF, bad response, silence, ...]; the same list through rodbus::client::Channel", "server_scenario": "WriteHandler callbacks returning {success | exception enum | Unknown+raw code} for FC05/06/15/16 observed by a raw TCP client"}));
     unsafe { ffi::rodbus_runtime_destroy(rt.0) };
     if args.tier == Tier::Thorough && !args.extra.contains_key("no-legs") {
@@ -1472,6 +1473,9 @@ pub fn run(args: &Args) -> i32 {
             ("shutdown_completions".into(), 8),
             ("tls_configuration_cells".into(), 8),
             ("invalid_argument_calls".into(), 17),
+            ("runtime_level_changes_compared".into(), 72),
+            ("rtu_server_replies_checked".into(), 3),
+            ("disable_enable_cycles_checked".into(), 1),
             ("list_reuse_writes_checked".into(), 6),
             ("max_sessions_cells_as_expected".into(), 9),
             ("authorization_callbacks_checked".into(), 32),
